@@ -315,6 +315,14 @@ def fold_constants(body, adts):
     return nb
 
 
+VIEW_CALLS = ('core::option::Option::as_ref', 'core::option::Option::as_deref', 'core::result::Result::as_ref')
+
+
+def _view_call(t):
+    from .facts import strip_generics
+    return strip_generics(t.get('callee_full', '') or t.get('callee', '')) in VIEW_CALLS
+
+
 def _decision_switch(body, s_bi, adts):
     """does the switch in s_bi test the variant of a local whose type is a fieldless enum of this workspace?"""
     blk = body.blocks[s_bi]
@@ -382,6 +390,15 @@ def _thread_jumps(body, adts=None):
                             break
                         if len(chain) <= MAX_CHAIN or (len(chain) <= MAX_CHAIN_DECISION and _decision_switch(cur, s_bi, adts)):
                             stack.append(chain)
+                    elif tp['k'] == 'call' and tp.get('target') == head and _view_call(tp) and _pure(blocks[p]) and len(ch) < MAX_CHAIN:
+                        # a block ending in a side-effect-free view call of std (`opt.as_ref()`): may sit in the middle of a
+                        # chain; its copy keeps the call
+                        chain = [p] + ch
+                        val = _resolve(cur, chain, s_bi, adts)
+                        if val is not None:
+                            plan = (p, ch, _target_for(blocks[s_bi]['term'], val))
+                            break
+                        stack.append(chain)
                     elif tp['k'] == 'switch' and p != s_bi and _pure(blocks[p]) and len(ch) <= MAX_CHAIN and len(preds[head]) > 1:
                         # correlated switches: the chain is entered over the one edge of an earlier switch on discr(L); on
                         # that edge L's variant is known, so a later switch on (a moved copy of) L is decided
@@ -428,7 +445,9 @@ def _thread_jumps(body, adts=None):
             nb.append(c)
         for k, bi in enumerate(ch):
             c = nb[new_ids[k]]
-            if k + 1 < len(ch):
+            if k + 1 < len(ch) and c['term']['k'] == 'call':
+                c['term']['target'] = new_ids[k + 1]
+            elif k + 1 < len(ch):
                 c['term'] = {'k': 'goto', 'target': new_ids[k + 1]}
             else:
                 c['term'] = {'k': 'goto', 'target': tgt, 'threaded': True, 'from_switch': ch[-1]}
